@@ -122,6 +122,10 @@ CHECKS = {
                 jobs=lambda t: J("docexplore", "asan-hsw", [], fills=[0x06] if t == "quick" else [0xbe, 0x06, 0x0c]) + J("domexplore", "asan-hsw", ["--only", "M_track_nestedmap"], label="asan-hsw/domexplore-track"),
                 budget=dict(quick=150, thorough=3000),
                 rule="explicit-state BFS over histories of two documents using a ledger-tracking allocator that really frees (Parse valid/invalid/deep, ParseOnDemand, ParseSchema, document move/swap, cross-document CopyFrom, node mutations, destroy/recreate at any point) under ASan: every block obtained from the allocator is returned exactly once (no double or foreign free, no use after free), nothing is left allocated when the last owner dies (ledger empty, heap at baseline), and each document's Dump() equals its own model after every step so that a deep copy is independent of its source. The mutation-API explorer with the same tracking allocator (domexplore, one start state) is run as a second job."),
+    "C18": dict(level="exploration", engine="eqenum",
+                jobs=lambda t: J("eqenum", "prod-hsw", []) + J("eqenum", "asan-hsw", []),
+                budget=dict(quick=150, thorough=3000),
+                rule="all ordered pairs of a value set x all 25 pairs of realisations through different histories and allocators: operator== agrees with reference JSON value equality (objects order-insensitive, number kinds and bit patterns distinguished), != is its negation, symmetric, reflexive; transitivity on all triples of a subset. Evaluations count (pair, realisation pair) comparisons."),
 }
 
 
